@@ -86,12 +86,14 @@ package storage
 //@   modifies acq, held
 //@   ensures [C19.locks-released] held == old(held)
 //@   ensures [C19.one-critical-section-per-table] forall m V :: acq[m] >= old(acq[m]) && acq[m] <= old(acq[m]) + ((m == addr(s.blacklistedJTIsMutex)) ? 1 : 0)
+//@   ensures [C15.jti-checked-and-marked-in-one-critical-section] forall m V :: acq[m] >= old(acq[m]) && acq[m] <= old(acq[m]) + ((m == addr(s.blacklistedJTIsMutex)) ? 1 : 0)
 
 //@ func (*MemoryStore).SetClientAssertionJWT
 //@   requires store_wf(s) && held[addr(s.blacklistedJTIsMutex)] == 0 && (forall m2 V :: held[m2] != 0 ==> mrank(m2) < 2)
 //@   modifies acq, held, mapof(s.BlacklistedJTIs)
 //@   ensures [C19.locks-released] held == old(held)
 //@   ensures [C19.one-critical-section-per-table] forall m V :: acq[m] >= old(acq[m]) && acq[m] <= old(acq[m]) + ((m == addr(s.blacklistedJTIsMutex)) ? 1 : 0)
+//@   ensures [C15.jti-checked-and-marked-in-one-critical-section] forall m V :: acq[m] >= old(acq[m]) && acq[m] <= old(acq[m]) + ((m == addr(s.blacklistedJTIsMutex)) ? 1 : 0)
 //@   let B = s.BlacklistedJTIs
 //@   ensures [C15.jti-mark-if-absent] err == nil ==> (jti in B) && B[jti] == exp && (old(jti in B) ==> old(B[jti]) < $now)
 //@   ensures [C15.jti-mark-if-absent] err != nil ==> eis(err, fosite.ErrJTIKnown) && old(jti in B) && (jti in B) && B[jti] == old(B[jti])
@@ -204,6 +206,7 @@ package storage
 //@   ensures [C19.one-critical-section-per-table] forall m V :: acq[m] >= old(acq[m]) && acq[m] <= old(acq[m]) + ((m == addr(s.refreshTokenRequestIDsMutex) || m == addr(s.refreshTokensMutex)) ? 1 : 0)
 //@   ensures [C04.store-refresh-never-reactivated] forall k string :: (k in s.RefreshTokens) == old(k in s.RefreshTokens) && (!old(s.RefreshTokens[k].active) ==> !s.RefreshTokens[k].active) && s.RefreshTokens[k].Requester == old(s.RefreshTokens[k].Requester)
 //@   ensures [C04.store-revokes-indexed-refresh-token] err == nil && old(requestID in s.RefreshTokenRequestIDs) ==> !s.RefreshTokens[old(s.RefreshTokenRequestIDs[requestID])].active
+//@   ensures [C01.store-revocation-reaches-the-whole-grant] err == nil && old(requestID in s.RefreshTokenRequestIDs) ==> !s.RefreshTokens[old(s.RefreshTokenRequestIDs[requestID])].active
 
 //@ func (*MemoryStore).RevokeAccessToken
 //@   requires store_wf(s) && held[addr(s.accessTokenRequestIDsMutex)] == 0 && held[addr(s.accessTokensMutex)] == 0 && (forall m2 V :: held[m2] != 0 ==> mrank(m2) < 1)
@@ -211,7 +214,9 @@ package storage
 //@   ensures [C19.locks-released] held == old(held)
 //@   ensures [C19.one-critical-section-per-table] forall m V :: acq[m] >= old(acq[m]) && acq[m] <= old(acq[m]) + ((m == addr(s.accessTokenRequestIDsMutex) || m == addr(s.accessTokensMutex)) ? 1 : 0)
 //@   invariant loop#1 [C08.store-revokes-every-token-of-request] s.AccessTokens == pre(s.AccessTokens) && (forall k string :: (k in s.AccessTokens) ==> old(k in s.AccessTokens) && s.AccessTokens[k] == old(s.AccessTokens[k])) && (forall k string :: old(k in s.AccessTokens) && old(s.AccessTokens[k]).GetID() != requestID ==> (k in s.AccessTokens)) && (forall k string :: $visited(k) && old(k in s.AccessTokens) && old(s.AccessTokens[k]).GetID() == requestID ==> !(k in s.AccessTokens))
+//@   invariant loop#1 [C01.store-revocation-reaches-the-whole-grant] s.AccessTokens == pre(s.AccessTokens) && (forall k string :: (k in s.AccessTokens) ==> old(k in s.AccessTokens) && s.AccessTokens[k] == old(s.AccessTokens[k])) && (forall k string :: old(k in s.AccessTokens) && old(s.AccessTokens[k]).GetID() != requestID ==> (k in s.AccessTokens)) && (forall k string :: $visited(k) && old(k in s.AccessTokens) && old(s.AccessTokens[k]).GetID() == requestID ==> !(k in s.AccessTokens))
 //@   ensures [C08.store-revokes-every-token-of-request] err == nil ==> (forall k string :: old(k in s.AccessTokens) && old(s.AccessTokens[k]).GetID() == requestID ==> !(k in s.AccessTokens))
+//@   ensures [C01.store-revocation-reaches-the-whole-grant] err == nil ==> (forall k string :: old(k in s.AccessTokens) && old(s.AccessTokens[k]).GetID() == requestID ==> !(k in s.AccessTokens))
 //@   ensures [C08.store-revoke-touches-only-that-request] forall k string :: (k in s.AccessTokens) ==> old(k in s.AccessTokens) && s.AccessTokens[k] == old(s.AccessTokens[k])
 //@   ensures [C08.store-revoke-touches-only-that-request] forall k string :: old(k in s.AccessTokens) && old(s.AccessTokens[k]).GetID() != requestID ==> (k in s.AccessTokens)
 
@@ -232,12 +237,14 @@ package storage
 //@   modifies acq, held
 //@   ensures [C19.locks-released] held == old(held)
 //@   ensures [C19.one-critical-section-per-table] forall m V :: acq[m] >= old(acq[m]) && acq[m] <= old(acq[m]) + ((m == addr(s.blacklistedJTIsMutex)) ? 1 : 0)
+//@   ensures [C15.jti-checked-and-marked-in-one-critical-section] forall m V :: acq[m] >= old(acq[m]) && acq[m] <= old(acq[m]) + ((m == addr(s.blacklistedJTIsMutex)) ? 1 : 0)
 
 //@ func (*MemoryStore).MarkJWTUsedForTime
 //@   requires store_wf(s) && held[addr(s.blacklistedJTIsMutex)] == 0 && (forall m2 V :: held[m2] != 0 ==> mrank(m2) < 2)
 //@   modifies acq, held, mapof(s.BlacklistedJTIs)
 //@   ensures [C19.locks-released] held == old(held)
 //@   ensures [C19.one-critical-section-per-table] forall m V :: acq[m] >= old(acq[m]) && acq[m] <= old(acq[m]) + ((m == addr(s.blacklistedJTIsMutex)) ? 1 : 0)
+//@   ensures [C15.jti-checked-and-marked-in-one-critical-section] forall m V :: acq[m] >= old(acq[m]) && acq[m] <= old(acq[m]) + ((m == addr(s.blacklistedJTIsMutex)) ? 1 : 0)
 
 //@ func (*MemoryStore).CreatePARSession
 //@   requires store_wf(s) && held[addr(s.parSessionsMutex)] == 0 && (forall m2 V :: held[m2] != 0 ==> mrank(m2) < 2)
